@@ -29,6 +29,10 @@ def run(ctx):
              "branch ends in END (see C01.i)")
     from rules import codegen
     codegen.check_program_end(ctx, "C20.e", cr)
+    ctx.rule("C20.f", "where statements sit on a line does not matter: every statement of a line "
+             "is handed to the code generator (no early exit from the per-line statement loop), "
+             "so DATA and WEND after a GOTO on the same line still count")
+    codegen.check_all_statements_compiled(ctx, "C20.f", cr)
 
 
 def rule_a(ctx, cr):
